@@ -1,11 +1,13 @@
 /-
 C13 — driver. One self-contained case per line:
   spans   <gen> <caseSeed> <batch> => <ResourceSpans dump>
+  e2e13   … # <batch> => <attempts> <status> <k> <dump> [|| …]   (real exporters against in-process collectors)
 For each line: run the model (`encode*`) on the canonical input, compare with the implementation's decoded
 payload (`agree`), and evaluate the Spec oracles (reference decoder + recovered/grouping predicates) on the
 **observed** payload.
 -/
 import Otel.C13.Parse
+import Otel.C13.ZipkinE2E
 open Otel Otel.Wire Otel.C13 Otel.C13.Tree
 
 def tagIf (b : Bool) (t : String) : List String := if b then [t] else []
@@ -194,13 +196,67 @@ def stepSens (field : String) (obs : List String) : Option Verdict :=
     some { agree := r == expected, spec := spec, nontrivial := true, branches := "sens:" ++ field, model := expected }
   | _ => none
 
+/-! ### end-to-end lines (harness/bb/otlpe2e): the payload as an in-process collector received it -/
+
+/-- split at every occurrence of `sep` -/
+def splitAll (sep : String) (l : List String) : List (List String) :=
+  let (cur, acc) := l.foldr (fun t (cur, acc) => if t == sep then ([], cur :: acc) else (t :: cur, acc)) ([], [])
+  cur :: acc
+
+def worstSpec (specs : List String) : String :=
+  if specs.any (· == "FAIL") then "FAIL"
+  else match specs.find? (·.startsWith "KNOWN:") with
+    | some k => k
+    | none => if specs.all (· == "ok") then "ok" else "FAIL"
+
+/-- `e2e13 <gen> <exp> <batch id> <configuration and script: not used here> # <batch> => <attempts> <ok|err|-> <k> <dump> [|| <k> <dump>]…`
+The real exporter (public API, real HTTP/gRPC client, possibly gzip, possibly several attempts) delivered the
+batch to a collector; every attempt's body was decompressed, `proto.Unmarshal`ed and dumped with the dumper of
+the white-box legs. Each group of attempts is judged by the SAME step function as the white-box line of that
+signal (`encodeSpans` / `encodeLogs` / `encodeResourceMetrics` + the Spec decoders): every attempt carries the
+model's encoding of the input, hence all attempts carry the same payload. -/
+def stepE2E (exp : String) (rest obs : List String) : Option Verdict := do
+  let batchToks ← (match splitAll "#" rest with
+    | [_, b] => some b
+    | _ => none)
+  match obs with
+  | natt :: st :: groupsToks =>
+    let natt ← natt.toNat?
+    let groups := splitAll "||" groupsToks
+    let judged ← groups.mapM (fun g => match g with
+      | k :: dump => do
+        let k ← k.toNat?
+        let v ← (match exp.toList.head? with
+          | some 't' => stepSpans batchToks dump
+          | some 'l' => stepLogs batchToks dump
+          | some 'm' => stepMetrics batchToks (if dump == ["err:wire"] then dump else st :: dump)
+          | _ => none)
+        pure (k, v)
+      | [] => none)
+    let total := judged.foldl (fun a kv => a + kv.1) 0
+    let vs := judged.map (·.2)
+    match vs with
+    | [] => none
+    | v0 :: _ =>
+      -- at least one attempt arrived, every attempt is accounted for, and all attempts decoded to one and the
+      -- same payload, which is the model's
+      let shape := natt ≥ 1 && total == natt && judged.length == 1
+      pure { agree := shape && vs.all (·.agree),
+             spec := if natt == 0 || total != natt then "FAIL" else worstSpec (vs.map (·.spec)),
+             nontrivial := v0.nontrivial,
+             branches := (if v0.branches == "-" then "" else v0.branches ++ ",") ++ s!"{exp},attempts{min natt 3}",
+             model := v0.model }
+  | _ => none
+
 def stepLine (_ : Unit) (toks : List String) : Unit × Option Verdict :=
   let (inp, obs) := splitObs toks
   match inp with
+  | "e2e13" :: _ :: exp :: rest => ((), stepE2E exp rest obs)
   | "spans" :: _ :: _ :: rest => ((), stepSpans rest obs)
   | "logs" :: _ :: _ :: rest => ((), stepLogs rest obs)
   | "metrics" :: _ :: _ :: rest => ((), stepMetrics rest obs)
   | "zipkin" :: _ :: _ :: rest => ((), stepZipkin rest obs)
+  | "zipkinseq" :: _ :: _ :: rest => ((), stepZipkinSeq rest obs)
   | ["sens", _, _, field] => ((), stepSens field obs)
   | _ => ((), none)
 
